@@ -104,6 +104,7 @@ type scenario struct {
 	RebroadcastAfterRound int // -1: the default (3); otherwise the round after which rebroadcast is scheduled without waiting for the phase timeout
 	SlowFloor bool // before stabilisation every message takes between 80% and 100% of PreGSTMaxDelay (a uniformly slow network)
 	Late      int  // honest id that starts the instance only long after stabilisation (0 = nobody)
+	Tamper    bool // the adversary shows tampered copies of observed votes (value replaced, signature stale) to a victim, twice each
 	Isolate   bool // the network (adversarial scheduler) holds back every honest message addressed to the relabelling victim for a long time
 	Partial   bool // every message travels as a partial message (announced value key), is partially validated on arrival and completed with its chain (production path of pmsg)
 }
@@ -312,7 +313,12 @@ func (w *world) broadcast(from int, m *gpbft.GMessage, byz bool) {
 		}
 		if w.sc.SlowDest > 0 && w.sc.GST > 0 && !w.postGST() {
 			if id == w.sc.SlowDest && from != id {
-				at = w.now.Add(6*time.Second + time.Duration(w.rng.Int63n(int64(3*time.Second))))
+				if m.Vote.Phase == gpbft.QUALITY_PHASE {
+					// QUALITY votes reach it only around stabilisation: by then it is one or more rounds in
+					at = w.t0.Add(w.sc.GST + time.Duration(w.rng.Int63n(int64(400*time.Millisecond))))
+				} else {
+					at = w.now.Add(time.Second + time.Duration(w.rng.Int63n(int64(2*time.Second))))
+				}
 			} else {
 				at = w.now.Add(time.Duration(w.rng.Int63n(int64(200 * time.Millisecond))))
 			}
@@ -759,6 +765,9 @@ func (w *world) byzStep() {
 	if w.sc.Partial && w.rng.Intn(3) == 0 && w.relabelStep() {
 		return
 	}
+	if !w.sc.Partial && w.sc.Tamper && w.rng.Intn(3) == 0 && w.tamperStep() {
+		return
+	}
 	phases := []gpbft.Phase{gpbft.QUALITY_PHASE, gpbft.CONVERGE_PHASE, gpbft.PREPARE_PHASE, gpbft.COMMIT_PHASE, gpbft.DECIDE_PHASE}
 	ph := phases[w.rng.Intn(len(phases))]
 	var maxR, inst uint64
@@ -823,6 +832,87 @@ func (w *world) byzStep() {
 // relabelStep (partial mode): the adversary re-announces a vote it has observed (any sender's, unchanged bytes and signature) under
 // the key of another chain, to one fixed victim, right after the victim has partially validated the genuine partial message whose
 // chain "has not been discovered yet". Only observed signatures are used. A correct validator refuses the re-announced message.
+// tamperStep: the adversary takes a vote it has observed (any sender's), replaces the value by another chain -- the signature no longer
+// matches -- and shows the result to one fixed victim twice in a row. A verdict must not depend on history: both copies are refused.
+func (w *world) tamperStep() bool {
+	victim := w.victim()
+	h := w.hosts[victim]
+	if h.done || h.crashed {
+		return false
+	}
+	inst := w.parts[victim].Progress().ID
+	in := h.inputs[inst]
+	if in == nil {
+		return false
+	}
+	if w.relabelled == nil {
+		w.relabelled = map[*gpbft.GMessage]bool{}
+	}
+	var decides, others []*gpbft.GMessage
+	for k := len(w.votes) - 1; k >= 0 && len(others) < 12; k-- {
+		m := w.votes[k]
+		if m.Vote.Instance != inst || m.Vote.Value.IsZero() || int(m.Sender) == victim || w.relabelled[m] {
+			continue
+		}
+		switch m.Vote.Phase {
+		case gpbft.DECIDE_PHASE:
+			decides = append(decides, m)
+		case gpbft.COMMIT_PHASE, gpbft.PREPARE_PHASE:
+			others = append(others, m)
+		}
+	}
+	pick := decides
+	if len(pick) == 0 && len(others) > 0 {
+		pick = []*gpbft.GMessage{others[w.rng.Intn(len(others))]}
+	}
+	if len(pick) == 0 {
+		return false
+	}
+	for _, m := range pick {
+		y := in
+		if y.Eq(m.Vote.Value) {
+			y = in.BaseChain()
+			if y.Eq(m.Vote.Value) {
+				continue
+			}
+		}
+		w.relabelled[m] = true
+		cp := *m
+		cp.Vote.Value = y
+		if m.Justification != nil {
+			j := *m.Justification
+			j.Vote.Value = y
+			cp.Justification = &j
+		}
+		for rep := 0; rep < 2; rep++ {
+			w.seq++
+			heap.Push(&w.q, &qev{at: w.now.Add(time.Duration(1+rep) * time.Millisecond), seq: w.seq, dest: victim, msg: &cp, byz: true, bad: true, again: true})
+		}
+		if m.Vote.Phase == gpbft.DECIDE_PHASE {
+			if bm := w.byzMessage(w.sc.Byz[0], inst, gpbft.DECIDE_PHASE, 0, m.Vote.Value, -1); bm != nil {
+				for _, id := range w.honest {
+					if id != victim {
+						w.seq++
+						heap.Push(&w.q, &qev{at: w.now.Add(time.Millisecond), seq: w.seq, dest: id, msg: bm, byz: true})
+					}
+				}
+				bcp := *bm
+				bcp.Vote.Value = y
+				if bm.Justification != nil {
+					j := *bm.Justification
+					j.Vote.Value = y
+					bcp.Justification = &j
+				}
+				for rep := 0; rep < 2; rep++ {
+					w.seq++
+					heap.Push(&w.q, &qev{at: w.now.Add(time.Duration(1+rep) * time.Millisecond), seq: w.seq, dest: victim, msg: &bcp, byz: true, bad: true, again: true})
+				}
+			}
+		}
+	}
+	return true
+}
+
 func (w *world) honestIndex(id int) int {
 	for k, h := range w.honest {
 		if h == id {
